@@ -164,6 +164,7 @@ class IOBase(Communicator):
         """
         if self.is_connected:
             return True  # no need for intermediate updates
+        self._last_connect_attempt = time.time()
         try:
             self.connectStart()
             if self._last_error:
@@ -193,7 +194,7 @@ class IOBase(Communicator):
             now = time.time()
             if now >= self._last_connect_attempt + self.pollinterval:
                 # we do not try to reconnect more often than pollinterval
-                _last_connect_attempt = now
+                # (read_is_connected remembers the time of the attempt)
                 if self.read_is_connected():
                     return
             raise SilentError('disconnected') from None
